@@ -227,7 +227,7 @@ mod verif_c05 {
     /// N samples with distinct concrete durations in a symbolic order (so which sample is the
     /// fastest / slowest / median is symbolic), each with its own distinct allocation tally
     /// and per-sample counter value; sample size S.
-    fn attribution<const N: usize, const S: u32>() {
+    fn attribution<const N: usize, const S: u32, const COUNTERS: bool>() {
         let sh = shared();
         let opts = BenchOptions::default();
         let mut cx = BenchContext::new(&sh, &opts, NonZeroUsize::MIN);
@@ -237,7 +237,7 @@ mod verif_c05 {
         let mut dur = [0u128; N];
         for i in 0..N { dur[i] = 100 * (((i + rot) % N) as u128 + 1); }
         // sample i: alloc count 10+i, alloc bytes 1000+i, grow count 20+i, max_count 30+i, max_size 4000+i; counter 7000+i
-        cx.counters.set_input_counter::<u32, crate::counter::ItemsCount, _>(|_| crate::counter::ItemsCount::new(0u32));
+        if COUNTERS { cx.counters.set_input_counter::<u32, crate::counter::ItemsCount, _>(|_| crate::counter::ItemsCount::new(0u32)); }
         for i in 0..N {
             cx.samples.time_samples.push(TimeSample { duration: FineDuration { picos: dur[i] } });
             let mut info = ThreadAllocInfo::new();
@@ -247,7 +247,7 @@ mod verif_c05 {
             info.max_count = 30 + i as ThreadAllocCountSigned;
             info.max_size = 4000 + i as ThreadAllocCountSigned;
             cx.samples.alloc_info_by_sample.insert(i as u32, info);
-            cx.counters.push_counter(AnyCounter::known(KnownCounterKind::Items, 7000 + i as MaxCountUInt));
+            if COUNTERS { cx.counters.push_counter(AnyCounter::known(KnownCounterKind::Items, 7000 + i as MaxCountUInt)); }
         }
         let st = cx.compute_stats();
         // index of the sample holding rank r (0 = fastest)
@@ -280,19 +280,25 @@ mod verif_c05 {
         let sh_ = st.alloc_tallies.get(AllocOp::Shrink);
         assert!(sh_.count.fastest == 0.0 && sh_.count.slowest == 0.0 && sh_.count.median == 0.0 && sh_.count.mean == 0.0);
         // per-sample counter values follow the same samples
-        let c = st.counts[KnownCounterKind::Items as usize].as_ref().unwrap();
-        assert!(c.fastest == 7000 + lo as MaxCountUInt && c.slowest == 7000 + hi as MaxCountUInt);
-        assert!(c.median == ((7000 + m0 as u128 + 7000 + m1 as u128) / 2) as MaxCountUInt);
+        if COUNTERS {
+            let c = st.counts[KnownCounterKind::Items as usize].as_ref().unwrap();
+            assert!(c.fastest == 7000 + lo as MaxCountUInt && c.slowest == 7000 + hi as MaxCountUInt);
+            assert!(c.median == ((7000 + m0 as u128 + 7000 + m1 as u128) / 2) as MaxCountUInt);
+        }
         assert!(no_nan(&st));
         kani::cover!(rot == N - 1);
     }
-    macro_rules! attr_harness { ($name:ident, $n:expr, $s:expr) => {
+    macro_rules! attr_harness { ($name:ident, $n:expr, $s:expr, $c:expr) => {
         #[kani::proof] #[kani::unwind(8)] #[kani::solver(kissat)] #[kani::stub(std::hash::RandomState::new, zeroed_random_state)]
-        fn $name() { attribution::<$n, $s>(); }
+        fn $name() { attribution::<$n, $s, $c>(); }
     } }
-    attr_harness!(attr_n1_s2, 1, 2);
-    attr_harness!(attr_n2_s2, 2, 2);
-    attr_harness!(attr_n3_s2, 3, 2);
+    // allocation figures only (the per-input counter plumbing - boxed closures - costs CBMC > 20 min even for one sample)
+    attr_harness!(attr_alloc_n1_s2, 1, 2, false);
+    attr_harness!(attr_alloc_n2_s2, 2, 2, false);
+    attr_harness!(attr_alloc_n3_s2, 3, 2, false);
+    // allocation and counter figures
+    attr_harness!(attr_n1_s2, 1, 2, true);
+    attr_harness!(attr_n2_s2, 2, 2, true);
 
     macro_rules! time_harness { ($name:ident, $n:expr, $s:expr) => {
         #[kani::proof] #[kani::unwind(6)] #[kani::solver(kissat)] #[kani::stub(std::hash::RandomState::new, zeroed_random_state)]
@@ -310,6 +316,40 @@ mod verif_c05 {
 """
 
 
+# Scratch-copy patch: std's HashMap (SipHash, growth, raw tables: one insert costs CBMC ~5 min) is
+# replaced, in the copy only, by a four-slot association list with the same meaning for the four
+# methods the crate uses on this field (insert / get / values / clear). std::collections::HashMap
+# is thereby ASSUMED correct; which keys are inserted and looked up is still the repository's code.
+KANI_MAP = r"""
+#[cfg(kani)]
+pub(crate) struct VerifMap<V> { slots: [Option<(u32, V)>; 4] }
+#[cfg(kani)]
+impl<V> Default for VerifMap<V> { fn default() -> Self { Self { slots: [None, None, None, None] } } }
+#[cfg(kani)]
+impl<V> VerifMap<V> {
+    pub fn insert(&mut self, k: u32, v: V) -> Option<V> {
+        let mut free = 4;
+        let mut i = 0;
+        while i < 4 {
+            match &self.slots[i] { Some((k2, _)) if *k2 == k => { return self.slots[i].replace((k, v)).map(|(_, old)| old); } None if free == 4 => free = i, _ => {} }
+            i += 1;
+        }
+        assert!(free < 4, "VerifMap holds at most 4 entries");
+        self.slots[free] = Some((k, v));
+        None
+    }
+    pub fn get(&self, k: &u32) -> Option<&V> {
+        let mut i = 0;
+        while i < 4 { if let Some((k2, v)) = &self.slots[i] { if k2 == k { return Some(v); } } i += 1; }
+        None
+    }
+    pub fn values(&self) -> impl Iterator<Item = &V> { self.slots.iter().filter_map(|s| s.as_ref().map(|(_, v)| v)) }
+    pub fn clear(&mut self) { self.slots = [None, None, None, None]; }
+}
+"""
+MAP_PATCH = (SAMPLE, r"pub alloc_info_by_sample: HashMap<u32, ThreadAllocInfo>,", "pub alloc_info_by_sample: VerifMap<ThreadAllocInfo>,", 1)
+
+
 def build(S: Sources, tier="quick") -> Unit:
     errs = []
     vfiles = guarded(lambda: verus_files(S), errs, [])
@@ -321,14 +361,19 @@ def build(S: Sources, tier="quick") -> Unit:
     for n, s, tier in [(0, 0, "quick"), (0, 5, "quick"), (1, 1, "quick"), (1, 3, "quick"), (2, 3, "thorough"), (3, 1, "thorough"), (3, 3, "thorough"), (4, 3, "thorough")]:
         hs.append(KaniHarness(f"verif_c05::time_n{n}_s{s}", "bounded", bound=f"exactly {n} samples, sample_size {s}, symbolic u128 durations",
                               covers="BenchContext::compute_stats (time statistics, NaN freedom, no panic)", tier=tier))
-    for n, tier in [(1, "thorough"), (2, "thorough"), (3, "thorough")]:
-        hs.append(KaniHarness(f"verif_c05::attr_n{n}_s2", "bounded", bound=f"exactly {n} samples in a symbolic order, concrete distinct tallies, sample_size 2",
-                              covers="BenchContext::compute_stats (allocation / counter figures belong to the samples that supplied the time)", tier=tier))
+    for n, tier in [(1, "quick"), (2, "quick"), (3, "thorough")]:
+        hs.append(KaniHarness(f"verif_c05::attr_alloc_n{n}_s2", "bounded", bound=f"exactly {n} samples in a symbolic order, concrete distinct tallies, sample_size 2",
+                              covers="BenchContext::compute_stats (allocation figures belong to the samples that supplied the time)", tier=tier))
+    for n, tier in [(1, "thorough"), (2, "thorough")]:
+        hs.append(KaniHarness(f"verif_c05::attr_n{n}_s2", "bounded", bound=f"exactly {n} samples in a symbolic order, concrete distinct tallies and counter values, sample_size 2 (> 20 min each)",
+                              covers="BenchContext::compute_stats (allocation and per-input counter figures belong to the samples that supplied the time)", tier=tier))
     return Unit(
         property_id="C05",
         verus=vfiles,
-        kani=KaniSpec(injections={UTIL: KANI_UTIL, FD: KANI_FD, BENCH: KANI_BENCH}, harnesses=hs,
-                      stubs_note=["std::hash::RandomState::new -> all-zero keys (HashMap seeding needs the getrandom FFI)"]),
+        kani=KaniSpec(injections={UTIL: KANI_UTIL, FD: KANI_FD, BENCH: KANI_BENCH, SAMPLE: KANI_MAP}, harnesses=hs, patches=[MAP_PATCH],
+                      stubs_note=["std::hash::RandomState::new -> all-zero keys (the thread pool's HashMap seeding needs the getrandom FFI)",
+                                  "scratch-copy patch: SampleCollection::alloc_info_by_sample: HashMap<u32, _> -> a four-slot association list with the same "
+                                  "insert/get/values/clear meaning (std HashMap assumed correct; CBMC needs ~5 min per HashMap insert)"]),
         build_errors=errs,
         undecided_clauses=[
             "more than 4 samples: compute_stats is closure/iterator code outside Verus; the sort it relies on (slice::sort_unstable_by_key) is std",
